@@ -391,8 +391,11 @@ class RF24Mesh(RF24MeshNoMaster):
 
                 self.frame_buf.header.message_type = MESH_ADDR_RESPONSE
                 self.frame_buf.header.to_node = self.frame_buf.header.from_node
+                # the response originates here: the NETWORK_ACK of a routed response must
+                # travel back to the master, not to the relay that is busy passing it on
+                self.frame_buf.header.from_node = self._addr
                 self.frame_buf.message = struct.pack("<H", new_addr)
-                if self.frame_buf.header.from_node != NETWORK_DEFAULT_ADDR:
+                if self.frame_buf.header.to_node != NETWORK_DEFAULT_ADDR:
                     if not self._write(self.frame_buf.header.to_node, TX_NORMAL):
                         self._write(self.frame_buf.header.to_node, TX_NORMAL)
                 else:
